@@ -358,3 +358,152 @@ func readRepoGlob(c *Ctx, pattern string) map[string]string {
 // kvMethods is the KVProvider method set in a fixed order.
 var kvMutators = []string{"Put", "Delete", "PrefixAppend", "PrefixRemove", "Acquire", "Renew", "Release", "Import", "RemoveKeys"}
 var kvReaders = []string{"Get", "PrefixList", "PrefixContains", "ListKeys", "Export", "RangeKeys"}
+
+// strAlternatives enumerates the strings expression e can evaluate to, as far as the
+// syntax tells: constants, concatenations, single-definition locals, and the fields of
+// the element variable of a `range` over a package-level slice literal (all fields of one
+// element are taken together). Anything else contributes the opaque piece "?".
+func strAlternatives(g *Fn, e ast.Expr) []string {
+	// range variables over package-level literals mentioned in e (through locals)
+	type rng struct {
+		v     *types.Var
+		elems []*ast.CompositeLit
+	}
+	var rngs []rng
+	seenVar := map[*types.Var]bool{}
+	var collect func(e ast.Expr, depth int)
+	collect = func(e ast.Expr, depth int) {
+		if depth > 6 {
+			return
+		}
+		ast.Inspect(e, func(n ast.Node) bool {
+			id, ok := n.(*ast.Ident)
+			if !ok {
+				return true
+			}
+			v := g.varOf(id)
+			if v == nil || seenVar[v] {
+				return true
+			}
+			seenVar[v] = true
+			for _, d := range g.defsOf(v) {
+				if d.multi && d.idx == 1 {
+					// range value: is the ranged expression a package-level literal?
+					if gv, ok := g.ObjOf(d.rhs).(*types.Var); ok && gv.Parent() == gv.Pkg().Scope() {
+						if lit := globalInit(g.C, gv); lit != nil {
+							var elems []*ast.CompositeLit
+							for _, el := range lit.Elts {
+								if cl, ok := el.(*ast.CompositeLit); ok {
+									elems = append(elems, cl)
+								}
+							}
+							rngs = append(rngs, rng{v, elems})
+						}
+					}
+				} else if !d.multi && d.rhs != nil {
+					collect(d.rhs, depth+1)
+				}
+			}
+			return true
+		})
+	}
+	collect(e, 0)
+	var out []string
+	var eval func(e ast.Expr, env map[*types.Var]*ast.CompositeLit, depth int) []string
+	eval = func(e ast.Expr, env map[*types.Var]*ast.CompositeLit, depth int) []string {
+		e = ast.Unparen(e)
+		if depth > 8 {
+			return []string{"?"}
+		}
+		if tv, ok := g.Info.Types[e]; ok && tv.Value != nil {
+			return []string{constantString(tv)}
+		}
+		switch x := e.(type) {
+		case *ast.BinaryExpr:
+			if x.Op == token.ADD {
+				var res []string
+				for _, l := range eval(x.X, env, depth+1) {
+					for _, r := range eval(x.Y, env, depth+1) {
+						if len(res) < 64 {
+							res = append(res, l+r)
+						}
+					}
+				}
+				return res
+			}
+		case *ast.Ident:
+			if v := g.varOf(x); v != nil {
+				defs := g.defsOf(v)
+				if len(defs) == 1 && !defs[0].multi && defs[0].rhs != nil {
+					return eval(defs[0].rhs, env, depth+1)
+				}
+			}
+		case *ast.SelectorExpr:
+			if v := g.varOf(x.X); v != nil {
+				if el := env[v]; el != nil {
+					// field by name or by position
+					st, _ := g.Info.Types[x.X].Type.Underlying().(*types.Struct)
+					for i, fe := range el.Elts {
+						if kv, ok := fe.(*ast.KeyValueExpr); ok {
+							if id, ok := kv.Key.(*ast.Ident); ok && id.Name == x.Sel.Name {
+								return eval(kv.Value, env, depth+1)
+							}
+							continue
+						}
+						if st != nil && i < st.NumFields() && st.Field(i).Name() == x.Sel.Name {
+							return eval(fe, env, depth+1)
+						}
+					}
+				}
+			}
+		}
+		return []string{"?"}
+	}
+	var rec func(i int, env map[*types.Var]*ast.CompositeLit)
+	rec = func(i int, env map[*types.Var]*ast.CompositeLit) {
+		if i == len(rngs) {
+			out = append(out, eval(e, env, 0)...)
+			return
+		}
+		for _, el := range rngs[i].elems {
+			env[rngs[i].v] = el
+			rec(i+1, env)
+		}
+		delete(env, rngs[i].v)
+	}
+	rec(0, map[*types.Var]*ast.CompositeLit{})
+	return out
+}
+
+// globalInit returns the composite literal a package-level variable is initialised with.
+func globalInit(c *Ctx, v *types.Var) *ast.CompositeLit {
+	for _, p := range c.All {
+		if p.Types != v.Pkg() {
+			continue
+		}
+		for _, f := range p.Syntax {
+			for _, d := range f.Decls {
+				gd, ok := d.(*ast.GenDecl)
+				if !ok {
+					continue
+				}
+				for _, sp := range gd.Specs {
+					vs, ok := sp.(*ast.ValueSpec)
+					if !ok {
+						continue
+					}
+					for i, nm := range vs.Names {
+						if p.TypesInfo.Defs[nm] == types.Object(v) && i < len(vs.Values) {
+							if cl, ok := vs.Values[i].(*ast.CompositeLit); ok {
+								return cl
+							}
+						}
+					}
+				}
+			}
+		}
+	}
+	return nil
+}
+
+var reWhereCol = regexp.MustCompile("(?i)WHERE\\s+`?([a-z_]+)`?\\s*(?:=|IN)")
